@@ -267,3 +267,341 @@ def ops_of_stream(s, rng=None, p_fin=0.0):
         if i < len(s) and rng.random() < p_fin:
             toks.append(rng.choice(["F", "R", "N"]))
     return ",".join(toks)
+
+
+# ==========================================================================================
+# G-SML: random SML files (AST -> random valid encoding) and mutations
+# The canonical text rendering below must equal what the harness/driver print (parse suite).
+# ==========================================================================================
+def tlf_bytes(tycode, V, k):
+    """k-byte TLF whose nibbles spell V (V < 16**k)"""
+    nibs = [(V >> (4 * (k - 1 - i))) & 0xF for i in range(k)]
+    out = []
+    for i, nb in enumerate(nibs):
+        more = 0x80 if i < k - 1 else 0
+        t = (tycode << 4) if i == 0 else 0
+        out.append(more | t | nb)
+    return bytes(out)
+
+
+def prim_tlf(rng, tycode, length, nonmin=0.12):
+    """TLF of a primitive type for `length` data bytes; sometimes non-minimal"""
+    k = 1
+    while length + k >= 16 ** k:
+        k += 1
+    if rng.random() < nonmin and tycode != 4:
+        k += rng.randint(1, 2)
+    return tlf_bytes(tycode, length + k, k)
+
+
+def list_tlf(rng, n, nonmin=0.12):
+    k = 1
+    while n >= 16 ** k:
+        k += 1
+    if rng.random() < nonmin:
+        k += rng.randint(1, 2)
+    return tlf_bytes(7, n, k)
+
+
+def rnd_bytes(rng, lo, hi):
+    n = rng.randint(lo, hi)
+    return bytes(rng.getrandbits(8) for _ in range(n))
+
+
+def hxs(b):
+    return b.hex() if len(b) else "."
+
+
+def enc_octet(rng, b):
+    return prim_tlf(rng, 0, len(b)) + b
+
+
+def opt_octet(rng, p_none=0.4, lo=0, hi=12):
+    """returns (text, encoding)"""
+    if rng.random() < p_none:
+        return "~", b"\x01"
+    b = rnd_bytes(rng, lo, hi)
+    if len(b) == 0:
+        # Some(empty) needs a non-minimal TLF (0x01 would be None)
+        return ".", tlf_bytes(0, 2, 2)
+    e = enc_octet(rng, b)
+    if e[0] == 0x01:
+        e = tlf_bytes(0, len(b) + 2, 2) + b
+    return hxs(b), e
+
+
+def enc_uint(rng, v, kmin, kmax):
+    """unsigned value in k bytes, kmin <= k <= kmax, v < 256**k"""
+    need = max(1, (v.bit_length() + 7) // 8)
+    k = rng.randint(max(kmin, need), kmax)
+    return prim_tlf(rng, 6, k) + v.to_bytes(k, "big")
+
+
+def enc_int(rng, v, kmin, kmax):
+    need = 1
+    while not (-(1 << (8 * need - 1)) <= v < (1 << (8 * need - 1))):
+        need += 1
+    k = rng.randint(max(kmin, need), kmax)
+    return prim_tlf(rng, 5, k) + (v & ((1 << (8 * k)) - 1)).to_bytes(k, "big")
+
+
+def rnd_uint(rng, bits):
+    r = rng.random()
+    if r < 0.2:
+        return rng.choice([0, 1, (1 << bits) - 1, 1 << (bits - 1), (1 << (bits - 1)) - 1, 255, 256])  & ((1 << bits) - 1)
+    return rng.getrandbits(rng.randint(1, bits))
+
+
+def rnd_int(rng, bits):
+    r = rng.random()
+    if r < 0.25:
+        return rng.choice([0, -1, 1, -(1 << (bits - 1)), (1 << (bits - 1)) - 1, -128, 127, -129, 128])
+    v = rng.getrandbits(rng.randint(1, bits - 1))
+    return -v - 1 if rng.random() < 0.5 else v
+
+
+def sx(v):
+    return ("-%x" % -v) if v < 0 else "%x" % v
+
+
+def gen_time(rng):
+    v = rnd_uint(rng, 32)
+    if rng.random() < 0.3:
+        return "T%x" % v, b"\x65" + v.to_bytes(4, "big")          # vendor workaround
+    return "T%x" % v, list_tlf(rng, 2) + enc_uint(rng, 1, 1, 1) + enc_uint(rng, v, 1, 4)
+
+
+def opt_time(rng, p_none=0.5):
+    if rng.random() < p_none:
+        return "~", b"\x01"
+    return gen_time(rng)
+
+
+WCLASS = {8: (1, 1), 16: (2, 2), 32: (3, 4), 64: (5, 8)}
+
+
+def gen_value(rng):
+    r = rng.randrange(12)
+    if r == 0:
+        b = rng.getrandbits(8) if rng.random() < 0.7 else 0
+        return "B%d" % (1 if b else 0), bytes([0x42, b])
+    if r == 1:
+        b = rnd_bytes(rng, 0, 20)
+        return "Y" + hxs(b), enc_octet(rng, b)
+    if r in (2, 3, 4, 5):
+        bits = [8, 16, 32, 64][r - 2]
+        kmin, kmax = WCLASS[bits]
+        k = rng.randint(kmin, kmax)
+        v = rnd_int(rng, 8 * k)
+        if not (-(1 << (8 * k - 1)) <= v < (1 << (8 * k - 1))):
+            v = 0
+        return "I%d:%s" % (bits, sx(v)), prim_tlf(rng, 5, k) + (v & ((1 << (8 * k)) - 1)).to_bytes(k, "big")
+    if r in (6, 7, 8, 9):
+        bits = [8, 16, 32, 64][r - 6]
+        kmin, kmax = WCLASS[bits]
+        k = rng.randint(kmin, kmax)
+        v = rnd_uint(rng, 8 * k)
+        return "U%d:%x" % (bits, v), prim_tlf(rng, 6, k) + v.to_bytes(k, "big")
+    if r == 10:
+        t, e = gen_time(rng)
+        return "L(%s)" % t, list_tlf(rng, 2) + enc_uint(rng, 1, 1, 1) + e
+    b = rnd_bytes(rng, 1, 6)
+    return "Y" + hxs(b), enc_octet(rng, b)
+
+
+def gen_status(rng):
+    bits = rng.choice([8, 16, 32, 64])
+    kmin, kmax = WCLASS[bits]
+    k = rng.randint(kmin, kmax)
+    v = rnd_uint(rng, 8 * k)
+    return "S%d:%x" % (bits, v), prim_tlf(rng, 6, k) + v.to_bytes(k, "big")
+
+
+def gen_list_entry(rng):
+    """returns (text, [chunks])"""
+    name = rnd_bytes(rng, 0, 8)
+    if rng.random() < 0.5:
+        st, ste = "~", b"\x01"
+    else:
+        st, ste = gen_status(rng)
+    vt, vte = opt_time(rng, 0.7)
+    if rng.random() < 0.5:
+        un, une = "~", b"\x01"
+    else:
+        u = rng.getrandbits(8)
+        un, une = "%x" % u, enc_uint(rng, u, 1, 1)
+    if rng.random() < 0.5:
+        sc, sce = "~", b"\x01"
+    else:
+        s = rnd_int(rng, 8)
+        s = max(-128, min(127, s))
+        sc, sce = sx(s), enc_int(rng, s, 1, 1)
+    va, vae = gen_value(rng)
+    sg, sge = opt_octet(rng, 0.7)
+    text = "(E %s %s %s %s %s %s %s)" % (hxs(name), st, vt, un, sc, va, sg)
+    return text, [list_tlf(rng, 7), enc_octet(rng, name), ste, vte, une, sce, vae, sge]
+
+
+def gen_message(rng, kind=None, nentries=None):
+    """returns dict(text, events, chunks) - chunks are the pre-CRC field encodings"""
+    tid = rnd_bytes(rng, 0, 6)
+    g = rng.getrandbits(8)
+    a = rng.getrandbits(8)
+    kind = kind or rng.choice(["open", "close", "list", "list"])
+    chunks = [list_tlf(rng, 6), enc_octet(rng, tid), enc_uint(rng, g, 1, 1), enc_uint(rng, a, 1, 1), list_tlf(rng, 2)]
+    head = "%s %x %x" % (hxs(tid), g, a)
+    if kind == "open":
+        chunks.append(enc_uint(rng, 0x101, 2, 4))
+        cp, cpe = opt_octet(rng, 0.6)
+        ci, cie = opt_octet(rng, 0.6)
+        rf = rnd_bytes(rng, 0, 8)
+        si = rnd_bytes(rng, 0, 10)
+        rt, rte = opt_time(rng)
+        if rng.random() < 0.6:
+            sv, sve = "~", b"\x01"
+        else:
+            v = rng.getrandbits(8)
+            sv, sve = "%x" % v, enc_uint(rng, v, 1, 1)
+        chunks += [list_tlf(rng, 6), cpe, cie, enc_octet(rng, rf), enc_octet(rng, si), rte, sve]
+        body = "(O %s %s %s %s %s %s)" % (cp, ci, hxs(rf), hxs(si), rt, sv)
+        return dict(text="(M %s %s)" % (head, body), events=["(MS %s %s)" % (head, body)], chunks=chunks)
+    if kind == "close":
+        chunks.append(enc_uint(rng, 0x201, 2, 4))
+        sg, sge = opt_octet(rng, 0.6)
+        chunks += [list_tlf(rng, 1), sge]
+        body = "(C %s)" % sg
+        return dict(text="(M %s %s)" % (head, body), events=["(MS %s %s)" % (head, body)], chunks=chunks)
+    chunks.append(enc_uint(rng, 0x701, 2, 4))
+    ci, cie = opt_octet(rng, 0.6)
+    si = rnd_bytes(rng, 0, 10)
+    ln, lne = opt_octet(rng, 0.5)
+    at, ate = opt_time(rng)
+    if nentries is None:
+        nentries = rng.choice([0, 1, 2, 3, 5, 14, 15, 16, 17, rng.randint(0, 40)])
+    entries = [gen_list_entry(rng) for _ in range(nentries)]
+    ls, lse = opt_octet(rng, 0.6)
+    gt, gte = opt_time(rng)
+    chunks += [list_tlf(rng, 7), cie, enc_octet(rng, si), lne, ate, list_tlf(rng, nentries)]
+    for t, ch in entries:
+        chunks += ch
+    chunks += [lse, gte]
+    body = "(G %s %s %s %s [%s] %s %s)" % (ci, hxs(si), ln, at, " ".join(t for t, _ in entries), ls, gt)
+    evs = ["(MS %s (GS %s %s %s %s %x))" % (head, ci, hxs(si), ln, at, nentries)] + [t for t, _ in entries] + ["(GE %s %s)" % (ls, gt)]
+    return dict(text="(M %s %s)" % (head, body), events=evs, chunks=chunks)
+
+
+def close_message(rng, chunks, good_crc=True):
+    """append the CRC field and the end marker to the pre-CRC chunks"""
+    pre = b"".join(chunks)
+    c = crc16(pre)
+    c = ((c & 0xFF) << 8) | (c >> 8)          # byte-swapped
+    if not good_crc:
+        c ^= 1 << rng.randrange(16)
+    if c < 256 and rng.random() < 0.5:
+        return pre + bytes([0x62, c]) + b"\x00"
+    return pre + prim_tlf(rng, 6, 2, nonmin=0.05) + c.to_bytes(2, "big") + b"\x00"
+
+
+def gen_file(rng, nmsgs=None):
+    """returns (bytes, expected complete text, expected event list, messages)"""
+    nmsgs = nmsgs if nmsgs is not None else rng.choice([0, 1, 1, 2, 3, 3, 4])
+    msgs = []
+    if nmsgs >= 3 and rng.random() < 0.6:
+        kinds = ["open"] + ["list"] * (nmsgs - 2) + ["close"]
+    else:
+        kinds = [None] * nmsgs
+    for k in kinds:
+        msgs.append(gen_message(rng, k))
+    data = b"".join(close_message(rng, m["chunks"]) for m in msgs)
+    text = "ok:" + (" ".join(m["text"] for m in msgs) if msgs else ".")
+    events = [e for m in msgs for e in m["events"]]
+    return data, text, events, msgs
+
+
+HUGE_TLFS = [bytes.fromhex(x) for x in [
+    "ff8f8f8f8f8f8f0f", "ff8f8f8f8f8f8f0e", "f18080808000", "f1808080808000", "f08f8f8f8f8f8f8f0f", "8f8f8f8f8f8f8f0f",
+    "818080808080808d", "81808080808080800d", "8f8f0f", "ff0f", "f100", "ef8f8f8f8f8f8f0f", "df0f", "7f", "8002", "8001",
+    "e00a", "d00a", "c3", "42", "4f", "10", "20", "30", "00", "81", "f0", "8f80", "8110", "f1808080808080808080808000"]]
+
+
+def mutate_message(rng, m):
+    """mutate the pre-CRC chunks of a message; returns (new chunk list, description)"""
+    ch = [bytes(c) for c in m["chunks"]]
+    kind = rng.randrange(10)
+    i = rng.randrange(len(ch))
+    if kind == 0:
+        b = bytearray(ch[i])
+        if b:
+            b[rng.randrange(len(b))] ^= 1 << rng.randrange(8)
+        ch[i] = bytes(b)
+        return ch, "bitflip"
+    if kind == 1:
+        b = bytearray(ch[i])
+        if b:
+            b[0] = rng.choice([0x00, 0x01, 0x42, 0x52, 0x62, 0x63, 0x65, 0x69, 0x71, 0x72, 0x76, 0x77, 0x7f, 0x80, 0x81, 0xf1, rng.getrandbits(8)])
+        ch[i] = bytes(b)
+        return ch, "fieldstart"
+    if kind == 2:
+        pre = b"".join(ch)
+        cut = rng.randrange(len(pre) + 1)
+        return [pre[:cut]], "truncate"
+    if kind == 3:
+        ch.insert(i, bytes([rng.getrandbits(8)]))
+        return ch, "insert"
+    if kind == 4:
+        del ch[i]
+        return ch, "delete-field"
+    if kind == 5:
+        # edit a list-length nibble
+        idx = [j for j, c in enumerate(ch) if c and (c[0] & 0x70) == 0x70]
+        if idx:
+            j = rng.choice(idx)
+            b = bytearray(ch[j])
+            b[-1] = (b[-1] & 0xF0) | rng.randrange(16)
+            ch[j] = bytes(b)
+        return ch, "listlen"
+    if kind in (6, 7):
+        # replace the TLF at the head of a field by one declaring an arbitrary length
+        t = rng.choice(HUGE_TLFS)
+        if rng.random() < 0.3:
+            k = rng.randint(1, 9)
+            t = tlf_bytes(rng.choice([0, 5, 6, 7]), rng.getrandbits(4 * k), k)
+        b = ch[i]
+        # strip the old TLF bytes
+        j = 0
+        while j < len(b) and b[j] & 0x80:
+            j += 1
+        ch[i] = t + b[j + 1:]
+        return ch, "hugetlf"
+    if kind == 8:
+        ch[i] = gen_value(rng)[1]
+        return ch, "swapfield"
+    b = ch[i]
+    ch[i] = b + b
+    return ch, "dupfield"
+
+
+def gen_mutant(rng):
+    """a corrupted file; returns (bytes, description)"""
+    data, text, events, msgs = gen_file(rng, rng.choice([1, 1, 2, 3]))
+    if not msgs:
+        return bytes([rng.getrandbits(8)]), "junk"
+    r = rng.random()
+    if r < 0.12:
+        d = bytearray(data)
+        d[rng.randrange(len(d))] ^= 1 << rng.randrange(8)
+        return bytes(d), "raw-bitflip"
+    if r < 0.18:
+        return data[:rng.randrange(len(data))], "raw-truncate"
+    if r < 0.24:
+        return data + rnd_bytes(rng, 1, 4), "raw-extend"
+    j = rng.randrange(len(msgs))
+    ch, desc = mutate_message(rng, msgs[j])
+    good = rng.random() < 0.75
+    out = b""
+    for k, m in enumerate(msgs):
+        if k == j:
+            out += close_message(rng, ch, good_crc=good)
+        else:
+            out += close_message(rng, m["chunks"])
+    return out, desc + ("+crc" if good else "")
